@@ -10,7 +10,10 @@ state: one data dictionary (`Data`).  Ops
   {"op":"es_set","sel":[names],"values":[q..],"ts":..,"it":..,"additive":bool}  set_variable_values → "ok" | {"err":k}
   {"op":"es_get","sel":[names],"ts":..,"it":..}                                 get_variable_values → {"val":[q..]} | {"err":k}
   {"op":"es_shift","sel":[names in argument order],"loc":s,"max":int|null}      shift_*_values      → "ok" | {"err":k}
-  {"op":"dump"}               → [{"loc":s,"name":s,"entries":[[i,[q..]],..]},..]  (storage order; the harness sorts)
+  {"op":"bc_update","name":s,"values":[q..],"depth":n}  update_boundary_condition on the boundary data → "ok" | {"err":k}
+  {"op":"bc_revert"}                                   _revert_time_dependent_boundary_values         → "ok" | {"err":k}
+  set/get/shift with "bd":true act on the boundary data dictionary
+  {"op":"dump"}               → {"main":[..],"bd":[..]} with entries [{"loc":s,"name":s,"entries":[[i,[q..]],..]},..]  (storage order; the harness sorts)
 -/
 import PorepyVerif.Common.Wire
 import PorepyVerif.C08.Model
@@ -70,19 +73,29 @@ def jBlock (j : Json) : R (String × Nat) :=
     pure (n, k)
   | _ => throw s!"not a block: {j.compress}"
 
-abbrev St := Data × Layout
+/-- state: data dictionary of the subdomain, layout of the equation system, data dictionary of the
+    boundary grid (ops with `"bd":true`, `bc_update`, `bc_revert` act on the latter) -/
+structure St where
+  d : Data
+  lay : Layout
+  bd : Data
+
+def onBd (j : Json) : Bool :=
+  match fieldD j "bd" (Json.bool false) with
+  | .bool b => b
+  | _ => false
 
 def stepD (st : St) (j : Json) : R (St × Json) := do
-  let d := st.1
-  let lay := st.2
+  let d := st.d
+  let lay := st.lay
   let op ← fStr j "op"
   match op with
   | "touch" =>
     let name ← fStr j "name"
-    pure ((touch d name, lay), Json.str "ok")
+    pure ({ st with d := touch d name }, Json.str "ok")
   | "layout" =>
     let bs ← (field j "blocks" >>= jList jBlock)
-    pure ((bs.foldl (fun acc b => touch acc b.1) d, bs), Json.str "ok")
+    pure ({ st with d := bs.foldl (fun acc b => touch acc b.1) d, lay := bs }, Json.str "ok")
   | "es_set" =>
     let sel ← (field j "sel" >>= jList jStr)
     let v ← fRats j "values"
@@ -90,7 +103,7 @@ def stepD (st : St) (j : Json) : R (St × Json) := do
     let it ← fOptInt j "it"
     let a ← fBool j "additive"
     let r := esSet lay d v sel ts it a
-    pure ((r.1, lay), outToJson r.2)
+    pure ({ st with d := r.1 }, outToJson r.2)
   | "es_get" =>
     let sel ← (field j "sel" >>= jList jStr)
     let ts ← fOptInt j "ts"
@@ -104,15 +117,28 @@ def stepD (st : St) (j : Json) : R (St × Json) := do
     | none => throw s!"es_shift: location {loc}"
     | some l =>
       let r := esShift d l m sel
-      pure ((r.1, lay), outToJson r.2)
+      pure ({ st with d := r.1 }, outToJson r.2)
+  | "bc_update" =>
+    let name ← fStr j "name"
+    let v ← fRats j "values"
+    let m ← fNat j "depth"
+    let r := bcUpdate st.bd name v m
+    pure ({ st with bd := r.1 }, outToJson r.2)
+  | "bc_revert" =>
+    let r := bcRevert st.bd
+    pure ({ st with bd := r.1 }, outToJson r.2)
   | "seq" =>
     let cs ← (field j "ops" >>= jList parseCmd)
     let r := cmdSeq d cs
-    pure ((r.1, lay), obj [("outs", ofList outToJson r.2)])
-  | "dump" => pure (st, dumpJson d)
+    pure ({ st with d := r.1 }, obj [("outs", ofList outToJson r.2)])
+  | "dump" => pure (st, obj [("main", dumpJson d), ("bd", dumpJson st.bd)])
   | _ =>
     let c ← parseCmd j
-    let r := cmdStep d c
-    pure ((r.1, lay), outToJson r.2)
+    if onBd j then
+      let r := cmdStep st.bd c
+      pure ({ st with bd := r.1 }, outToJson r.2)
+    else
+      let r := cmdStep d c
+      pure ({ st with d := r.1 }, outToJson r.2)
 
-def main : IO Unit := runDriver (([], []) : St) stepD
+def main : IO Unit := runDriver (⟨[], [], []⟩ : St) stepD
